@@ -14,6 +14,7 @@ Fixpoint drain (comb : bool) (evs : list ev) (lim : Z) : ((str * rerr) * list ev
   | [] => if (lim <=? 0)%Z then ((([], EEof), []), lim) else ((([], EUnexpEof), []), lim)
   | Zero :: r => if (lim <=? 0)%Z then ((([], EEof), evs), lim) else drain comb r lim
   | Fail :: r => if (lim <=? 0)%Z then ((([], EEof), evs), lim) else ((([], EInjected), r), lim)
+  | Eof :: r => if (lim <=? 0)%Z then ((([], EEof), evs), lim) else ((([], EUnexpEof), r), lim)
   | Data d :: r =>
       if (lim <=? 0)%Z then ((([], EEof), evs), lim)
       else if (Z.of_nat (length d) <=? lim)%Z then
@@ -23,6 +24,7 @@ Fixpoint drain (comb : bool) (evs : list ev) (lim : Z) : ((str * rerr) * list ev
           match r with
           | [] => (((d, if (lim1 >? 0)%Z then EUnexpEof else EEof), []), lim1)
           | Fail :: r' => (((d, EInjected), r'), lim1)
+          | Eof :: r' => (((d, if (lim1 >? 0)%Z then EUnexpEof else EEof), r'), lim1)
           | _ => go
           end
         else go
@@ -56,7 +58,7 @@ Proof.
                (((firstn k d ++ bs0, e0), evs0), Hn0))).
     { intros [[[bs e] evs'] lim2]. rewrite app_assoc, firstn_skipn. reflexivity. }
     destruct comb.
-    + destruct r as [|[d'| |] r']; try (rewrite firstn_skipn; reflexivity); apply G.
+    + destruct r as [|[d'| | |] r']; try (rewrite firstn_skipn; reflexivity); apply G.
     + apply G.
   - apply Z.leb_gt in W.
     destruct (lim - Z.of_nat k <=? 0)%Z eqn:Hn2.
@@ -91,14 +93,14 @@ Section Chunk.
     destruct (lim <=? 0)%Z eqn:Hn0.
     - (* the LimitedReader is exhausted *)
       assert (D : drain comb evs lim = ((([], EEof), evs), lim)).
-      { destruct evs as [|[d| |] r]; cbn [drain]; rewrite Hn0; reflexivity. }
+      { destruct evs as [|[d| | |] r]; cbn [drain]; rewrite Hn0; reflexivity. }
       rewrite D. unfold drained, set_err. cbn [is_eof v_base v_N v_hashed v_verified]. rewrite !app_nil_r. reflexivity.
     - apply Z.leb_gt in Hn0.
       pose proof (clamp_ge1 bufsz lim B1 Hn0) as K1. pose proof (clamp_le bufsz lim Hn0) as [_ K2].
       remember (clamp bufsz lim) as k eqn:Ek. clear Ek.
       unfold base_read. cbn [b_lim b_evs].
       assert (Hnp : (lim <=? 0)%Z = false) by (apply Z.leb_gt; lia).
-      destruct evs as [|[d| |] r].
+      destruct evs as [|[d| | |] r].
       + cbn [script_read drain]. rewrite Hnp. cbn [length is_eof andb]. rewrite Z.sub_0_r.
         assert (G : (lim >? 0)%Z = true) by (apply Z.gtb_lt; lia). rewrite G.
         unfold drained, set_err. cbn [is_eof v_base v_N v_hashed v_verified]. rewrite !app_nil_r. reflexivity.
@@ -111,10 +113,12 @@ Section Chunk.
                        = drained hashed out (let '(((bs, e), evs'), lim2) := drain comb r (lim - Z.of_nat (length d)) in (((d ++ bs, e), evs'), lim2))).
           { rewrite IH by lia. apply drained_shift. }
           destruct comb eqn:Cb.
-          -- destruct r as [|[d'| |] r']; try exact Go.
+          -- destruct r as [|[d'| | |] r']; try exact Go.
              ++ cbn [is_eof andb]. unfold drained, set_err. cbn [v_base v_N v_hashed v_verified].
                 destruct (lim - Z.of_nat (length d) >? 0)%Z; reflexivity.
              ++ cbn [is_eof andb]. unfold drained, set_err. cbn [v_base v_N v_hashed v_verified is_eof]. reflexivity.
+             ++ cbn [is_eof andb]. unfold drained, set_err. cbn [v_base v_N v_hashed v_verified].
+                destruct (lim - Z.of_nat (length d) >? 0)%Z; reflexivity.
           -- exact Go.
         * (* a partial Read *)
           apply Nat.leb_gt in Ld.
@@ -124,6 +128,9 @@ Section Chunk.
           apply drained_shift.
       + cbn [script_read drain length app]. rewrite Hnp, Z.sub_0_r, !app_nil_r. simpl in Fu. apply IH. lia.
       + cbn [script_read drain length app is_eof andb]. rewrite Hnp, Z.sub_0_r.
+        unfold drained, set_err. cbn [is_eof v_base v_N v_hashed v_verified]. rewrite !app_nil_r. reflexivity.
+      + cbn [script_read drain length app is_eof andb]. rewrite Hnp, Z.sub_0_r.
+        assert (G : (lim >? 0)%Z = true) by (apply Z.gtb_lt; lia). rewrite G.
         unfold drained, set_err. cbn [is_eof v_base v_N v_hashed v_verified]. rewrite !app_nil_r. reflexivity.
   Qed.
 
